@@ -174,7 +174,7 @@ OBJ_INIT = '''
     def _SyncObj__loadDumpFile(self, clearJournal):
         r = SyncObj._SyncObj__loadDumpFile(self, clearJournal)
         if self._hook is not None:
-            self._hook.on_load(self, clearJournal)
+            self._hook.on_load(self, clearJournal, r)
         return r
 '''
 
@@ -519,6 +519,9 @@ class Cluster(object):
         self.apply_log = []               # (nid, applied_before, commit, applied_after, outcome)
         self.cur_src = None
         self.installed = {}               # nid -> enabled versions adopted from installed snapshots
+        self.skipped = []                 # (nid, index, entry) applied without executing anything
+        self.stopped_unknown_id = []      # (nid, index, entry) node stopped in front of an unknown method id
+        self.refused = set()              # nids that refused a dump (lack its version) in this process lifetime
         self.cut = set()
         self.isolated = frozenset()
         self.next_cid = 1
@@ -573,25 +576,33 @@ class Cluster(object):
         new = list(obj._trace[tl:])
         if la2 == la and ci <= la and exc is None:
             return
-        # which entry each execution belongs to
+        # which entry each execution belongs to (an entry can be "applied" without running
+        # anything: __applyLogEntries logs and swallows what __doApplyCommand raises)
         k = 0
-        for idx in range(la + 1, min(ci, la2 + 1) + 1):
+        for idx in range(la + 1, la2 + 1):
             d = self.glog.get(idx)
-            if d is not None and d[0] == 'reg' and k < len(new) and idx <= la2:
-                self.executed.setdefault(idx, []).append((nid, self.epoch[nid], new[k]))
-                k += 1
+            if d is not None and d[0] == 'reg':
+                if k < len(new) and new[k][3] == d[2]:
+                    self.executed.setdefault(idx, []).append((nid, self.epoch[nid], new[k]))
+                    k += 1
+                else:
+                    self.skipped.append((nid, idx, d))
         if k != len(new):
-            self.anomalies.append('node %d: %d executions for %d applied REGULAR entries' % (nid, len(new), k))
+            self.anomalies.append('node %d: executions %r do not match the applied entries %d..%d' % (nid, new, la + 1, la2))
         if exc is not None:
-            if isinstance(exc, KeyError):
-                out = (2, exc.args[0] if exc.args and isinstance(exc.args[0], int) else 0)
-            else:
-                out = (9, 0)
-                self.anomalies.append('node %d: %r escaped __applyLogEntries' % (nid, exc))
+            out = (9, 0)
+            self.anomalies.append('node %d: %r escaped __applyLogEntries' % (nid, exc))
         elif la2 < ci:
+            # stopped: at a VERSION entry (error names that version) or at a method id this code
+            # does not have (error names the enabled version)
             d = self.glog.get(la2 + 1, ('?',))
-            out = (1, d[1]) if d[0] == 'ver' else (8, 0)
-            if d[0] != 'ver':
+            if d[0] == 'ver':
+                out = (1, d[1])
+            elif d[0] == 'reg':
+                out = (1, obj.getCodeVersion())
+                self.stopped_unknown_id.append((nid, la2 + 1, d))
+            else:
+                out = (8, 0)
                 self.anomalies.append('node %d stopped at index %d which is %r' % (nid, la2 + 1, d))
         else:
             out = (0, 0)
@@ -621,20 +632,25 @@ class Cluster(object):
                 self.problems.append('dump of node %d: state of owner %d is %r, executions were %r' % (nid, o, h, hist))
         return (selfd['_SyncObj__enabledCodeVersion'], hist)
 
-    def on_load(self, obj, clear):
+    def on_load(self, obj, clear, loaded):
         nid = self.nid_of_obj(obj)
         st = (obj._SyncObj__raftLastApplied - 1, obj.getCodeVersion(), [tuple(e) for e in obj.ghist])
         owners = [obj] + list(obj.cons)
         for o, w in enumerate(owners):
             if [tuple(e) for e in w.hist] != [e for e in st[2] if e[0] == o]:
                 self.problems.append('node %d after loading a dump: state of owner %d is %r, executions were %r' % (nid, o, w.hist, st[2]))
+        if not loaded:
+            self.refused.add(nid)
+            self.count('dumps_refused')
         if clear:
-            self.count('snapshot_installs')
-            self.epoch[nid] += 1
+            if loaded:
+                self.count('snapshot_installs')
+                self.epoch[nid] += 1
+                self.installed.setdefault(nid, []).append(st[1])
             self.events.append(('install', self.ix(self.cur_src), self.ix(nid)) + st)
-            self.installed.setdefault(nid, []).append(st[1])
         else:
-            self.count('dump_restarts')
+            if loaded:
+                self.count('dump_restarts')
             self.events.append(('restart', self.ix(nid), self.code_of[nid], True) + st)
 
     # -- driving ------------------------------------------------------------------------------------
@@ -672,7 +688,7 @@ class Cluster(object):
     def stuck(self, nid):
         """the node cannot apply its next committed entry (lacks the version / unknown id)"""
         o = self.obj(nid)
-        return any(a[0] == nid and a[4][0] in (1, 2) and a[3] == o._SyncObj__raftLastApplied for a in self.apply_log[-12:])
+        return any(a[0] == nid and a[4][0] == 1 and a[3] == o._SyncObj__raftLastApplied for a in self.apply_log[-12:])
 
     def settled(self):
         L = self.leader()
@@ -685,7 +701,7 @@ class Cluster(object):
         for n, o in self.sim.nodes.items():
             if len(o._SyncObj__commandsQueue._FastQueue__queue):
                 return False
-            if n in self.isolated:
+            if n in self.isolated or n in self.refused:
                 continue
             if o._SyncObj__raftCommitIndex != top or o._SyncObj__raftLog[-1][1] != top:
                 return False
@@ -717,27 +733,29 @@ class Cluster(object):
         q = obj._SyncObj__commandsQueue._FastQueue__queue
         before = len(q)
         enabled = obj.getCodeVersion()
-        exp = expected_version(self.shape(nid), owner, name, enabled)
+        eshape = self.shape(nid)
+        if enabled > shape_max(eshape):
+            eshape = self.codes[1]['shape']     # the node reports a version only the new code has
+        exp = expected_version(eshape, owner, name, enabled)
         meth = getattr(target, name, None)
         fid = None
         err = None
         if meth is None:
-            err = 'AttributeError'
-        else:
-            try:
-                meth(cid)
-                d = decode_command(q[-1][0])
-                if len(q) != before + 1 or d[0] != 'reg' or d[2] != cid:
-                    self.anomalies.append('call did not queue one command: %r' % (d,))
-                fid = d[1]
-            except KeyError:
-                err = 'KeyError'
-                if len(q) != before:
-                    self.anomalies.append('raising call left a command in the queue')
+            self.count('calls_no_such_method')      # this code has no method of that name at all
+            return None
+        try:
+            meth(cid)
+            d = decode_command(q[-1][0])
+            if len(q) != before + 1 or d[0] != 'reg' or d[2] != cid:
+                self.anomalies.append('call did not queue one command: %r' % (d,))
+            fid = d[1]
+        except KeyError:
+            err = 'KeyError'
+            if len(q) != before:
+                self.anomalies.append('raising call left a command in the queue')
         self.calls[cid] = {'node': nid, 'owner': owner, 'name': name, 'enabled': enabled, 'expect_ver': exp,
                            'fid': fid, 'err': err, 'code': self.code_of[nid]}
-        if meth is not None:
-            self.events.append(('call', self.ix(nid), owner, name, fid))
+        self.events.append(('call', self.ix(nid), owner, name, fid))
         self.count('calls')
         if fid is None:
             self.count('calls_keyerror')
@@ -796,6 +814,7 @@ class Cluster(object):
         if code is not None:
             self.code_of[nid] = code
         self.epoch[nid] += 1
+        self.refused.discard(nid)
         self.count('restarts')
         self.events.append(('restart', self.ix(nid), self.code_of[nid], False, 0, 0, []))
         self._start(nid)
@@ -856,6 +875,8 @@ def monitor(c, final=True):
             if (nid, ep) in seen:
                 P.append('node %d executed log index %d twice in one process lifetime' % (nid, idx))
             seen.add((nid, ep))
+    for nid, idx, d in c.skipped:
+        P.append('node %d counted log index %d (%r) as applied without executing anything' % (nid, idx, d))
     # (2) a call uses the newest implementation whose version is not above the enabled version
     by_cid = {}
     for idx, lst in c.executed.items():
@@ -884,13 +905,24 @@ def monitor(c, final=True):
         own = shape_max(c.shape(nid))
         # first version entry this code cannot apply
         bad = [i for i, d in sorted(c.glog.items()) if d[0] == 'ver' and d[1] > own]
-        want_hist = None
-        if bad and nid not in c.installed:
+        if obj.getCodeVersion() > own:
+            P.append('node %d reports enabled version %d but its code only has version %d' % (nid, obj.getCodeVersion(), own))
+        if bad:
             if la >= bad[0]:
                 P.append('node %d (code version %d) applied past the VERSION %d entry at index %d (lastApplied %d)'
                          % (nid, own, c.glog[bad[0]][1], bad[0], la))
+        # (6) ... on every node, also one that restarted or caught up from a snapshot taken after the
+        #     switch: the version in force is the one of the last VERSION entry in the applied prefix
+        exp_en = 0
+        for i in range(2, la + 1):
+            d = c.glog.get(i)
+            if d is not None and d[0] == 'ver':
+                exp_en = d[1]
+        c.count('enabled_version_checks')
+        if obj.getCodeVersion() != exp_en:
+            P.append('node %d has applied the log up to index %d where the enabled version is %d, but it is at version %d'
+                     % (nid, la, exp_en, obj.getCodeVersion()))
         # (5) the state is the executions of the applied prefix, in log order
-        base = 0
         if final:
             exp = []
             ok = True
@@ -905,6 +937,8 @@ def monitor(c, final=True):
                         ok = False
                         break
                     exp.append(next(iter(impls)))
+            if ok:
+                c.count('state_is_applied_prefix_checks')
             if ok and [tuple(e) for e in obj.ghist] != exp:
                 P.append('node %d: state %r is not the executions of its applied prefix %r' % (nid, obj.ghist, exp))
     return P
